@@ -4,6 +4,10 @@ import RbV.Spec.Gc
 import RbV.Ref.Complement
 import RbV.Model.OrfScan
 import RbV.Lemmas.OrfScan
+import RbV.Lemmas.OrfScanP
+import RbV.Thm.GenSrcOrf
+import RbV.Thm.GenSrcGc
+import RbV.Thm.GenSrcAlphabet
 /-!
 # C20 — ORF finder, complements, alphabets / rank transform, GC content
 
@@ -246,6 +250,94 @@ example : Model.OrfScan.findAll [[65, 84, 71]] [[84, 65, 65], [84, 65, 71]] 0
     [65, 84, 71, 65, 84, 71, 65, 65, 65, 84, 65, 65, 71, 65, 84, 71, 84, 65, 71] = [(0, 12, 0), (3, 12, 0), (13, 19, 1)] := by
   decide +kernel
 
+/-! ## The source text of `Matches::next` (translated on every run, `Gen/SrcOrf.lean`)
+
+`tools/rs2lean.py` translates the text of `Matches::next` into `Gen.SrcOrf.next` (+ loop helpers) and the length test of
+its flush loop into `Gen.SrcOrf.next_lenTest`; `GenSrcOrf.collect T …` calls the translated `next` (with length test `T`)
+until it returns `None`, as `Iterator::collect` does.  `Rs.Res.ok v` = no panic, no loop ran out of fuel, result `v`.
+The property leaves frames of length `minLen … minLen + 2` free; accordingly the tie is stated for *every* length test
+inside that freedom (`Model.OrfScan.LenTestOk`), and the test found in the source is shown to be inside it. -/
+
+/-- **The ORF mirror model is sound and complete for every length test inside the freedom of the property.**
+`findAllP P` is the mirror model of `Matches::next` whose flush loop uses the test `P index start_pos`; if `P` accepts
+every frame longer than `minLen + 2` and only frames at least `minLen` long, the oracle accepts the model's answer
+(every reported triple is an ORF of length ≥ `minLen` with offset `start % 3`, none twice, every ORF longer than
+`minLen + 2` is reported). -/
+theorem orf_model_any_test_accepted (seq : List Nat) (starts stops : List (List Nat)) (minLen : Nat)
+    (P : Nat → Nat → Bool) (hP : Model.OrfScan.LenTestOk P minLen seq.length)
+    (h3s : ∀ c ∈ starts, c.length = 3) (h3p : ∀ c ∈ stops, c.length = 3) (hd : ∀ c ∈ starts, c ∉ stops) :
+    Orf.acceptOrf seq starts stops minLen (Model.OrfScan.findAllP P starts stops seq) = true := by
+  obtain ⟨hm0, hn0⟩ := orf_sound_complete seq starts stops 0 h3s h3p hd
+  obtain ⟨hm, _⟩ := orf_sound_complete seq starts stops minLen h3s h3p hd
+  have hsub0 := Lemmas.OrfScanP.findAllP_sublist_all h3s P seq (stops := stops)
+  have hsub := Lemmas.OrfScanP.findAll_sublist_findAllP h3s P minLen seq hP (stops := stops)
+  rw [acceptOrf_iff]
+  refine ⟨?_, hsub0.nodup hn0, ?_⟩
+  · intro t ht
+    obtain ⟨h1, _, h3⟩ := (hm0 t).mp (hsub0.subset ht)
+    exact ⟨h1, Lemmas.OrfScanP.findAllP_len h3s P minLen seq hP t ht, h3⟩
+  · intro s e hio hlen
+    exact hsub.subset ((hm (s, e, s % 3)).mpr ⟨hio, hlen, rfl⟩)
+
+/-- **`Matches::next` as written in the source = the mirror model** (`orf_next_source_eq_model`): for every length test
+`T` that computes `P` on the arguments the loop passes, calling the translated `next` on a fresh iterator until it
+returns `None` never panics and yields exactly `findAllP P` — all sequences shorter than `2^64 - 1`, all codon sets with
+three-symbol start codons, every `minLen`. -/
+theorem orf_next_source_eq_model (T : Nat → Nat → Nat → Rs.Res Bool) (P : Nat → Nat → Bool)
+    (seq : List Nat) (starts stops : List (List Nat)) (minLen : Nat)
+    (hT : GenSrcOrf.TestIs T P minLen seq.length) (h3s : ∀ c ∈ starts, c.length = 3) (hlen : seq.length + 1 < 2 ^ 64)
+    (fuel : Nat) (hf : (Model.OrfScan.findAllP P starts stops seq).length < fuel) :
+    GenSrcOrf.collect T starts stops minLen fuel [[], [], []] [] [] (GenSrcOrf.enumFrom 0 seq)
+      = Rs.Res.ok (Model.OrfScan.findAllP P starts stops seq) :=
+  GenSrcOrf.collect_findAllP T P starts stops minLen seq hT h3s hlen fuel hf
+
+/-- the length test found in the source text never panics on the arguments the loop passes and lies inside the freedom
+of the property: it accepts every frame longer than `minLen + 2` and only frames at least `minLen` long -/
+theorem orf_length_test_source_in_slack (minLen B : Nat) (hB : B + 2 < 2 ^ 64) :
+    GenSrcOrf.TestIs Gen.SrcOrf.next_lenTest (GenSrcOrf.srcTest minLen) minLen B ∧
+    Model.OrfScan.LenTestOk (GenSrcOrf.srcTest minLen) minLen B :=
+  ⟨GenSrcOrf.srcTest_is minLen B hB, GenSrcOrf.srcTest_ok minLen B hB⟩
+
+/-- **The source text of `Matches::next` is sound and complete**: iterating the *translated* `next` (with the length
+test of the source) over any sequence shorter than `2^64 - 2` yields a list the oracle accepts. -/
+theorem orf_next_source_accepted (seq : List Nat) (starts stops : List (List Nat)) (minLen : Nat)
+    (h3s : ∀ c ∈ starts, c.length = 3) (h3p : ∀ c ∈ stops, c.length = 3) (hd : ∀ c ∈ starts, c ∉ stops)
+    (hlen : seq.length + 2 < 2 ^ 64) :
+    ∃ out, (∀ fuel, out.length < fuel →
+        GenSrcOrf.collect Gen.SrcOrf.next_lenTest starts stops minLen fuel [[], [], []] [] [] (GenSrcOrf.enumFrom 0 seq)
+          = Rs.Res.ok out) ∧
+      Orf.acceptOrf seq starts stops minLen out = true := by
+  obtain ⟨h1, h2⟩ := orf_length_test_source_in_slack minLen seq.length hlen
+  exact ⟨_, fun fuel hf => orf_next_source_eq_model _ _ seq starts stops minLen h1 h3s (by omega) fuel hf,
+    orf_model_any_test_accepted seq starts stops minLen _ h2 h3s h3p hd⟩
+
+/-- with the length test of the pinned text (`index + 1 - start_pos > min_len`) the translated `next` yields exactly
+what the mirror model `findAll` — the one the driver runs next to the code on every case — yields -/
+theorem orf_next_source_pinned_test_eq_findAll (T : Nat → Nat → Nat → Rs.Res Bool)
+    (seq : List Nat) (starts stops : List (List Nat)) (minLen : Nat)
+    (hT : GenSrcOrf.TestIs T (Model.OrfScan.pinnedTest minLen) minLen seq.length)
+    (h3s : ∀ c ∈ starts, c.length = 3) (hlen : seq.length + 1 < 2 ^ 64)
+    (fuel : Nat) (hf : (Model.OrfScan.findAll starts stops minLen seq).length < fuel) :
+    GenSrcOrf.collect T starts stops minLen fuel [[], [], []] [] [] (GenSrcOrf.enumFrom 0 seq)
+      = Rs.Res.ok (Model.OrfScan.findAll starts stops minLen seq) := by
+  rw [Model.OrfScan.findAll_eq_findAllP] at hf ⊢
+  exact orf_next_source_eq_model T _ seq starts stops minLen hT h3s hlen fuel hf
+
+-- non-vacuity: the translated `next` on ATG ATG AAA TAA G ATG TAG (frames of length 12, 9 and 6).  The minimum lengths
+-- are chosen outside the slack of every frame (3: all three are longer than 3 + 2; 13: none is at least 13 long), so that
+-- a source change that only moves the length test inside the slack does not break the examples.
+example : GenSrcOrf.collect Gen.SrcOrf.next_lenTest [[65, 84, 71]] [[84, 65, 65], [84, 65, 71]] 3 9 [[], [], []] [] []
+    (GenSrcOrf.enumFrom 0 [65, 84, 71, 65, 84, 71, 65, 65, 65, 84, 65, 65, 71, 65, 84, 71, 84, 65, 71])
+    = Rs.Res.ok [(0, 12, 0), (3, 12, 0), (13, 19, 1)] := by decide +kernel
+example : GenSrcOrf.collect Gen.SrcOrf.next_lenTest [[65, 84, 71]] [[84, 65, 65], [84, 65, 71]] 13 9 [[], [], []] [] []
+    (GenSrcOrf.enumFrom 0 [65, 84, 71, 65, 84, 71, 65, 65, 65, 84, 65, 65, 71, 65, 84, 71, 84, 65, 71])
+    = Rs.Res.ok [] := by decide +kernel
+-- inside the slack both answers are accepted: min_len 9, the frame 3..12 of length 9 may be reported or not
+example : Orf.acceptOrf [65, 84, 71, 65, 84, 71, 65, 65, 65, 84, 65, 65, 71, 65, 84, 71, 84, 65, 71]
+    [[65, 84, 71]] [[84, 65, 65], [84, 65, 71]] 9 [(0, 12, 0), (3, 12, 0)] = true ∧
+  Orf.acceptOrf [65, 84, 71, 65, 84, 71, 65, 65, 65, 84, 65, 65, 71, 65, 84, 71, 84, 65, 71]
+    [[65, 84, 71]] [[84, 65, 65], [84, 65, 71]] 9 [(0, 12, 0)] = true := by decide +kernel
+
 /-! ## GC content -/
 
 /-- the exact GC fraction lies in [0, 1] -/
@@ -256,5 +348,83 @@ theorem gc_tolerance_iff (p q c l : Nat) :
     Gc.within1e6 p q c l = true ↔
       ((p : Int) * l - c * q) * 1000000 ≤ q * l ∧ ((c : Int) * q - p * l) * 1000000 ≤ q * l :=
   Gc.within1e6_iff p q c l
+
+/-! ### the source text of `gcn_content` (translated on every run, `Gen/SrcGc.lean`)
+
+The integer part of the GC functions is tied by a theorem about the source text; the `f32` conversion and division are
+abstract parameters (`toF32`, `fdiv`) of the translated definition and stay with the numerical clause of the driver. -/
+
+/-- `gc_content` as written in the source (`gcn_content(sequence, 1)`): for a sequence shorter than `2^64` it divides the
+number of `C G c g` symbols by the length, both converted to `f32` -/
+theorem gc_content_source_counts {F : Type} (toF32 : Nat → F) (fdiv : F → F → F) (s : List Nat) (hlen : s.length < 2 ^ 64) :
+    Gen.SrcGc.gcnContent toF32 fdiv s 1 = Rs.Res.ok (fdiv (toF32 (Gc.gcCount s)) (toF32 s.length)) := by
+  rw [GenSrcGc.gcnContent_eq_model toF32 fdiv s 1 (by omega) hlen, Rs.stepByGo_one]
+
+/-- `gc3_content` as written in the source (`gcn_content(sequence, 3)`): the same over the symbols at positions
+`0, 3, 6, …` — the reading `every3 · 0` the driver accepts first -/
+theorem gc3_content_source_counts {F : Type} (toF32 : Nat → F) (fdiv : F → F → F) (s : List Nat) (hlen : s.length < 2 ^ 64) :
+    Gen.SrcGc.gcnContent toF32 fdiv s 3
+      = Rs.Res.ok (fdiv (toF32 (Gc.gcCount (Gc.every3 s 0))) (toF32 (Gc.every3 s 0).length)) := by
+  rw [GenSrcGc.gcnContent_eq_model toF32 fdiv s 3 (by omega) hlen, GenSrcGc.stepByGo3_eq_every3]
+
+-- GATATACA: 2 of 8; positions 0, 3, 6 = G A C: 2 of 3 (the documented example)
+example : Gen.SrcGc.gcnContent (F := Nat × Nat) (fun n => (n, 1)) (fun a b => (a.1, b.1)) [71, 65, 84, 65, 84, 65, 67, 65] 3
+    = Rs.Res.ok (2, 3) := by decide
+
+/-! ### the source text of `Alphabet` / `RankTransform` (translated on every run, `Gen/SrcAlphabet.lean`)
+
+`bit_set::BitSet` and `vec_map::VecMap<u8>` are the containers `Rs.BitSet` (ascending member list) and `Rs.VecMap`
+(association list) of `RsSem.lean` — the trusted meaning of the two crates; everything `alphabets/mod.rs` does with them
+is translated text. -/
+
+/-- `Alphabet::new(symbols)` as written in the source builds exactly the model's alphabet, whose members are the given
+bytes (`alphabet_members`) -/
+theorem alphabet_new_source_eq_model (syms : List Nat) (hb : ∀ c ∈ syms, c < 256) :
+    Gen.SrcAlphabet.alphabetNew syms = Rs.Res.ok (Alpha.mk syms) :=
+  GenSrcAlphabet.alphabetNew_eq_model syms hb
+
+/-- `Alphabet::insert` as written in the source -/
+theorem alphabet_insert_source_eq_model (syms : List Nat) (a : Nat) (ha : a < 256) :
+    Gen.SrcAlphabet.alphabetInsert (Alpha.mk syms) a = Rs.Res.ok (Alpha.mk (a :: syms)) :=
+  GenSrcAlphabet.alphabetInsert_eq_model syms a ha
+
+/-- `Alphabet::is_word`, `max_symbol`, `len` as written in the source, on the alphabet `Alphabet::new(syms)` builds:
+a text is accepted iff all its symbols are among `syms` (`is_word_iff`), the maximal symbol is the last member, the size
+is the number of members -/
+theorem alphabet_queries_source_eq_model (syms t : List Nat) :
+    Gen.SrcAlphabet.isWord (Alpha.mk syms) t = Rs.Res.ok (Alpha.isWord (Alpha.mk syms) t) ∧
+    (Alpha.isWord (Alpha.mk syms) t = true ↔ ∀ c ∈ t, c ∈ syms ∧ c < 256) ∧
+    Gen.SrcAlphabet.maxSymbol (Alpha.mk syms) = Rs.Res.ok (Alpha.maxSymbol (Alpha.mk syms)) ∧
+    Gen.SrcAlphabet.len (Alpha.mk syms) = Rs.Res.ok (Alpha.mk syms).length :=
+  ⟨GenSrcAlphabet.isWord_eq_model _ t, is_word_iff syms t,
+   GenSrcAlphabet.maxSymbol_eq_model _ (Alpha.mk_sorted syms) (fun a ha => ((Alpha.mem_mk syms a).mp ha).2),
+   GenSrcAlphabet.len_eq_model _⟩
+
+/-- **`RankTransform::{new, get, transform}` as written in the source**: `new` builds a map that sends every member of
+the alphabet to its rank in the model (`rank_bijective_monotone`: an order-preserving bijection onto `0..|A|`) and nothing
+else; `get` returns that rank and panics outside the alphabet; `transform` maps a word over the alphabet to its ranks. -/
+theorem rank_transform_source_eq_model (syms : List Nat) :
+    ∃ m, Gen.SrcAlphabet.rankNew (Alpha.mk syms) = Rs.Res.ok m ∧
+      (∀ a, Gen.SrcAlphabet.rankGet m a
+          = if a ∈ Alpha.mk syms then Rs.Res.ok (Alpha.rank (Alpha.mk syms) a) else Rs.Res.panic) ∧
+      (∀ t, (∀ c ∈ t, c ∈ Alpha.mk syms) →
+          Gen.SrcAlphabet.transform m t = Rs.Res.ok (Alpha.transform (Alpha.mk syms) t)) := by
+  have hl : (Alpha.mk syms).length ≤ 256 := by
+    unfold Alpha.mk
+    exact Nat.le_trans (List.length_filter_le _ _) (by simp)
+  obtain ⟨m, h1, h2⟩ := GenSrcAlphabet.rankNew_eq_model (Alpha.mk syms) (Alpha.mk_sorted syms) hl
+  exact ⟨m, h1, fun a => GenSrcAlphabet.rankGet_eq_model _ m h2 a,
+    fun t ht => GenSrcAlphabet.transform_eq_model _ m h2 t ht⟩
+
+-- the translated constructors and queries on "TAGCA": alphabet A C G T, ranks 0 1 2 3, the full byte alphabet
+example : (do let a ← Gen.SrcAlphabet.alphabetNew [84, 65, 71, 67, 65]
+              let m ← Gen.SrcAlphabet.rankNew a
+              Gen.SrcAlphabet.transform m [71, 65, 84, 84, 65, 67, 65]) = Rs.Res.ok [2, 0, 3, 3, 0, 1, 0] := by decide
+example : (do let a ← Gen.SrcAlphabet.alphabetNew (List.range 256)
+              let m ← Gen.SrcAlphabet.rankNew a
+              Gen.SrcAlphabet.transform m [255, 0, 128]) = Rs.Res.ok [255, 0, 128] := by decide +kernel
+example : (do let a ← Gen.SrcAlphabet.alphabetNew [65, 67]
+              let m ← Gen.SrcAlphabet.rankNew a
+              Gen.SrcAlphabet.rankGet m 66) = Rs.Res.panic := by decide
 
 end RbV.Thm.C20
